@@ -239,6 +239,15 @@ def build_harness(name, profile="release", cfg=True):
         shutil.copy(src_lock, lock)
         rc, out = sh("cargo build %s --offline" % flag, cwd=hdir, env=env, timeout=3000)
     binname = {"det": "vdet", "phys": "vphys", "apps": "vapps"}[name]
+    if rc == 0 and name == "apps":
+        # the analysis binaries themselves, from /repo's current working tree (no cfg flag: as shipped)
+        adir = os.path.join(BUILD, "cargo-analysis")
+        env2 = dict(ENV)
+        env2["CARGO_TARGET_DIR"] = adir
+        rc, out2 = sh("cargo build --release --offline -p alpha-g-analysis", cwd=REPO, env=env2, timeout=3000)
+        out += out2
+        os.environ["VERIF_ANALYSIS_BIN"] = os.path.join(adir, "release")
+        ENV["VERIF_ANALYSIS_BIN"] = os.path.join(adir, "release")
     exe = os.path.join(tdir, "release" if profile == "release" else "debug", binname)
     return (exe if rc == 0 else None), out
 
